@@ -154,10 +154,12 @@ Record result := mkResult {
   r_rules : list (N * option addr);  (* rule id, IP of a hosts-style rule *)
   r_canon : bytes;                   (* CanonName *)
   r_iplist : list addr;              (* IPList *)
-  r_drw : option drwresult           (* DNSRewriteResult *)
+  r_drw : option drwresult;          (* DNSRewriteResult *)
+  r_canon_rewritten : bool           (* CanonNameRewritten (fix 2e58a5d): the legacy
+                                        rewrites cover CanonName itself *)
 }.
 
-Definition no_result : result := mkResult NotFilteredNotFound false [] [] [] [] None.
+Definition no_result : result := mkResult NotFilteredNotFound false [] [] [] [] None false.
 
 Definition matched (r : result) : bool :=
   match r_reason r with NotFilteredNotFound => false | _ => true end.
@@ -270,7 +272,7 @@ Section Engines.
     map (fun h => (hr_id h, Some (hr_ip h))) hs.
 
   Definition plain_result (rs : reason) (filtered : bool) (svc : bytes) (rules : list (N * option addr)) : result :=
-    mkResult rs filtered svc rules [] [] None.
+    mkResult rs filtered svc rules [] [] None false.
 
   (** matchHostProcessAllowList *)
   Definition allowlist_result (dr : dnsresult) : result :=
@@ -322,15 +324,15 @@ Section Engines.
   Fixpoint process_dns_rewrites (rs : list nrule) (vals : list (N * rrvalue)) (rules : list (N * option addr))
       : result :=
     match rs with
-    | [] => mkResult RewrittenRule false [] rules [] [] (Some (mkDRW 0 vals))
+    | [] => mkResult RewrittenRule false [] rules [] [] (Some (mkDRW 0 vals)) false
     | nr :: rest =>
         match the_drw nr with
-        | DRWCname n => mkResult RewrittenRule false [] [(nr_id nr, None)] n [] None
+        | DRWCname n => mkResult RewrittenRule false [] [(nr_id nr, None)] n [] None false
         | DRWRcode 0 => process_dns_rewrites rest (vals ++ [(0, VNil)]) (rules ++ [(nr_id nr, None)])
         | DRWAddr a =>
             process_dns_rewrites rest (vals ++ [(if is4 a then tA else tAAAA, VAddr a)])
                                  (rules ++ [(nr_id nr, None)])
-        | DRWRcode rc => mkResult RewrittenRule false [] [(nr_id nr, None)] [] [] (Some (mkDRW rc []))
+        | DRWRcode rc => mkResult RewrittenRule false [] [(nr_id nr, None)] [] [] (Some (mkDRW rc [])) false
         end
     end.
 
@@ -394,8 +396,8 @@ Section Engines.
     if negb (st_protection st) || negb (st_safesearch st) then no_result
     else match ss_oracle host qt with
          | None => no_result
-         | Some (SSAddr a) => mkResult FilteredSafeSearch true [] [(0, Some a)] [] [] None
-         | Some (SSCname n) => mkResult FilteredSafeSearch true [] [] n [] None
+         | Some (SSAddr a) => mkResult FilteredSafeSearch true [] [(0, Some a)] [] [] None false
+         | Some (SSCname n) => mkResult FilteredSafeSearch true [] [] n [] None false
          end.
 
   (** matchSysHosts / hostsRewrites *)
@@ -407,7 +409,7 @@ Section Engines.
       | Some addrs =>
           let valid := filter (fun a => if qt =? tA then is4 a else negb (is4 a)) addrs in
           mkResult RewrittenAutoHosts false [] (map (fun _ => (0, None)) addrs) [] []
-                   (Some (mkDRW 0 (map (fun a => (qt, VAddr a)) valid)))
+                   (Some (mkDRW 0 (map (fun a => (qt, VAddr a)) valid))) false
       end
     else if qt =? tPTR then
       match assoc_bytes (c_arpa c) host with
@@ -417,7 +419,7 @@ Section Engines.
           | None | Some [] => no_result
           | Some names =>
               mkResult RewrittenAutoHosts false [] (map (fun _ => (0, None)) names) [] []
-                       (Some (mkDRW 0 (map (fun n => (qt, VName n)) names)))
+                       (Some (mkDRW 0 (map (fun n => (qt, VName n)) names))) false
           end
       end
     else no_result.
@@ -456,7 +458,9 @@ Section Engines.
         match Rewrites.r_reason r with
         | Rewrites.Rewritten =>
             Some (mkResult RewrittenLegacy false [] [] (Rewrites.r_canon r)
-                           (map addr_of_ip (Rewrites.r_ips r)) None)
+                           (map addr_of_ip (Rewrites.r_ips r)) None
+                           (match Rewrites.process_rewrites_covered rw_sort (c_rewrites c) host qt with
+                            | Some b => b | None => false end))
         | Rewrites.NotFound => Some no_result
         end
     end.
@@ -599,7 +603,8 @@ Section Engines.
   Definition is_rewritten_cname (r : result) : bool :=
     (match r_reason r with RewrittenLegacy | RewrittenRule | FilteredSafeSearch => true | _ => false end) &&
     (match r_canon r with [] => false | _ => true end) &&
-    (match r_iplist r with [] => true | _ => false end).
+    (match r_iplist r with [] => true | _ => false end) &&
+    negb (r_canon_rewritten r).
 
   (** * Response filtering (filter.go) *)
 
